@@ -214,7 +214,9 @@ func netKV(r *rand.Rand) string {
 	return out
 }
 
-const placeholderLetters = "UAIGRSX"
+const placeholderLetters = "UAIGRSXKLN" // placeholders that print a value
+
+const spellLetters = placeholderLetters + "E" // … and the action that fails to execute
 
 // genG: the global constant: letters, digits, white space (inside and, sometimes, at its ends: gRPC carries a
 // metadata value as written) and characters an HTML-minded or URL-minded encoder would change.
@@ -235,7 +237,7 @@ func genG(r *rand.Rand) string {
 func spell(r *rand.Rand, s string) string {
 	var b strings.Builder
 	for i := 0; i < len(s); i++ {
-		if s[i] == '{' && i+2 < len(s) && s[i+2] == '}' && strings.IndexByte(placeholderLetters, s[i+1]) >= 0 {
+		if s[i] == '{' && i+2 < len(s) && s[i+2] == '}' && strings.IndexByte(spellLetters, s[i+1]) >= 0 {
 			b.WriteByte('{')
 			b.WriteByte(s[i+1])
 			if r.Intn(2) == 0 {
@@ -311,7 +313,7 @@ func genJSONLong(r *rand.Rand, sched bool) string {
 // ---------------------------------------------------------------- scenarios
 
 var mdTemplates = []string{"x-user:u-{U}", "x-g:{G}", "x-const:abc", "x-mix:{G}-{U}~end", "X-Up:{U}{U}", "x-plain:Bearer~zzz", "payload:p-{U}-{G}",
-	"x-fn:{R}-{S}~{U}", "x-id:{X}", "x-sp:a~{U}~~b~{G}~c", "x-rid:r{R}{X}-{G}", "x-br:{~{U}~}"}
+	"x-fn:{R}-{S}~{U}", "x-id:{X}", "x-k:{K}{L}~{N}", "x-sp:a~{U}~~b~{G}~c", "x-rid:r{R}{X}-{G}", "x-br:{~{U}~}"}
 
 func genScen(r *rand.Rand, engine bool) string {
 	n := pick(r, []int{1, 2, 2, 3, 4})
@@ -374,6 +376,22 @@ func genScen(r *rand.Rand, engine bool) string {
 		if r.Intn(3) == 0 {
 			calls = append(calls, "ill|"+svc+"Hello|a:b-{G}|name:n.5|-")
 			failCalls = append(failCalls, "ill")
+		}
+		// a template the engine cannot execute ({E}: a template function returning an error) or cannot parse ({P}),
+		// in the metadata or in the payload, next to healthy templates: one sample with code 0, no call, the shot ends
+		if r.Intn(4) == 0 {
+			bad := pick(r, []string{"{E}", "{E}", "{P}"})
+			if bad == "{P}" && r.Intn(2) == 0 {
+				bad = fmt.Sprintf("{P%d}", 1+r.Intn(7))
+			}
+			bad = spell(r, bad)
+			pre := pick(r, []string{"u", "-"})
+			if r.Intn(2) == 0 {
+				calls = append(calls, "terr|"+svc+"Hello|"+spell(r, "x-g:{G},x-e:v"+bad+",x-r:{R}")+"|name:s.x|"+pre)
+			} else {
+				calls = append(calls, "terr|"+svc+"Hello|"+spell(r, "x-g:{G}")+"|name:s.a"+bad+"|"+pre)
+			}
+			failCalls = append(failCalls, "terr")
 		}
 	}
 	ns := 1 + r.Intn(3)
@@ -560,6 +578,9 @@ func genExhaustive() []string {
 			}
 			out = append(out, fmt.Sprintf("mode=json run=sched n=%d sc=%d tmo=0 oe=0 sched=%s e=%s", n, sc, sched, entries))
 			out = append(out, fmt.Sprintf("mode=json n=%d sc=%d tmo=0 oe=1 e=%s", n, sc, entries))
+			// the same pool shapes with the descriptors served by a separate reflection endpoint
+			out = append(out, fmt.Sprintf("mode=json run=sched n=%d sc=%d rp=1 tmo=0 oe=0 sched=%s e=%s", n, sc, sched, entries))
+			out = append(out, fmt.Sprintf("mode=json n=%d sc=%d rp=1 rmd=1 tmo=0 oe=1 e=%s", n, sc, entries))
 		}
 	}
 	strVals := []string{"s.abc", "s.", "z", "n.5", "b.true", "o", "f.1.5", "s.a%22b%5Cc", "s.%C3%A9~x"}
